@@ -83,7 +83,33 @@ func rulePolicySync(c *Ctx, rule string) {
 		}
 		seq, ok := callSequence(c, fn, 0)
 		if !ok {
-			c.undecided(rule, fn, "handler call order", nil, "the handler (or a helper it calls) is no longer straight-line code; the order rule cannot be decided")
+			// branching handler: decide by paths. Every step lies on every path to a return, and each step is preceded by
+			// the one before it.
+			var steps [][]ssa.CallInstruction
+			for _, n := range h.order {
+				steps = append(steps, calls(fn, "(*PolicyManager)."+n))
+			}
+			good, why := true, ""
+			for k, st := range steps {
+				if len(st) == 0 {
+					good, why = false, h.order[k]+" is not called"
+					break
+				}
+				r := reachFromEntry(fn, newCut().callInstrs(st))
+				for _, ret := range returns(fn) {
+					if r.has(ret) {
+						good, why = false, "a return is reachable without "+h.order[k]
+					}
+				}
+				if k > 0 {
+					for _, call := range st {
+						if !precedes(fn, toInstrs(steps[k-1]), call) {
+							good, why = false, h.order[k]+" can run before "+h.order[k-1]
+						}
+					}
+				}
+			}
+			c.ob(rule, fn, "order "+strings.Join(h.order, " -> "), nil, good, "every path through the handler runs the three syncs in this order ("+h.why+"); "+why)
 			continue
 		}
 		pos := orderOf(seq, h.order...)
